@@ -59,7 +59,12 @@ func main() {
 		panic(err)
 	}
 	workDir = wd
-	defer os.RemoveAll(wd)
+	if k := os.Getenv("GOVC_KEEP"); k != "" {
+		os.MkdirAll(k, 0o755)
+		workDir = k
+	} else {
+		defer os.RemoveAll(wd)
+	}
 
 	switch cmd {
 	case "func":
@@ -149,7 +154,7 @@ func solveAll(obls []*Obligation, timeout time.Duration) {
 				}
 				facts = qf
 			}
-			o.Res = solve(Query{Facts: facts, Goal: o.Goal, Values: vals}, to)
+			o.Res = solve(Query{Facts: facts, Goal: o.Goal, Values: vals, Cover: o.Cover}, to)
 			switch o.Res.Status {
 			case "unsat":
 				o.Status = "proved"
@@ -183,7 +188,7 @@ func printObls(obls []*Obligation, all bool, dump string) {
 		}
 		if re != nil && re.MatchString(o.Name) {
 			facts := append(strConstFacts(), o.Facts...)
-			for _, m := range []Mode{ModeInt, ModeBV} {
+			for _, m := range []Mode{ModeInt, ModeBV, ModeReal} {
 				s, err := buildScript(m, facts, o.Goal, nil, false)
 				if err != nil {
 					fmt.Println("   (", m, "inexpressible:", err, ")")
@@ -232,7 +237,7 @@ func runCheck(prop, tier, cfgPath, evDir, knownPath, replayDir string, verbose b
 	if kb, err := os.ReadFile(knownPath); err == nil {
 		json.Unmarshal(kb, &known)
 	}
-	timeout := 20 * time.Second
+	timeout := 40 * time.Second
 	if tier == "thorough" {
 		timeout = 120 * time.Second
 	}
